@@ -32,9 +32,11 @@ ASSUMPTIONS = [
 ]
 MIN_EVENTS = {
     'quick': {'connections_checked': 1500, 'payloads_checked': 8000, 'disconnections_checked': 1000,
-              'adv_events_checked': 2000, 'steal_cases': 120, 'churn_cases': 200, 'fragadv_cases': 60, 'ghost_cases': 30},
+              'adv_events_checked': 2000, 'steal_cases': 120, 'churn_cases': 200, 'fragadv_cases': 60, 'ghost_cases': 30,
+              'advset_phases_verified': 300, 'last_words_checked': 150, 'advset_handle_reused_after_remove': 40},
     'thorough': {'connections_checked': 10000, 'payloads_checked': 60000, 'disconnections_checked': 7000,
-                 'adv_events_checked': 6000, 'steal_cases': 1000, 'churn_cases': 1000, 'fragadv_cases': 400, 'ghost_cases': 200},
+                 'adv_events_checked': 6000, 'steal_cases': 1000, 'churn_cases': 1000, 'fragadv_cases': 400, 'ghost_cases': 200,
+                 'advset_phases_verified': 2400, 'last_words_checked': 1200, 'advset_handle_reused_after_remove': 300},
 }
 CASE_TIMEOUT = 300
 CID = 0x0074
@@ -56,6 +58,8 @@ def plan(tier, seed):
         cases.append({'kind': 'ghost', 'seed': seed * 1000003 + i})
     for i in range(120 if tier == 'quick' else 800):
         cases.append({'kind': 'fragadv', 'seed': seed * 1000003 + i})
+    for i in range(150 if tier == 'quick' else 1200):
+        cases.append({'kind': 'advsets', 'seed': seed * 1000003 + i})
     return cases
 
 
@@ -464,6 +468,21 @@ async def churn(case, r: R):
             key = rng.choice(sorted(live))
             ca, cb = live.pop(key)
             who = rng.choice([ca, cb])
+            # last words: PDUs written right before the disconnection is requested, without the loop running
+            # in between. Those the controller was given before the Disconnect command are on the link before
+            # the termination and must reach the peer.
+            words = []
+            sdev = key[0] if who is ca else key[1]
+            pdev = key[1] if who is ca else key[0]
+            peer_conn = cb if who is ca else ca
+            mark_log = len(rg.hci_log)
+            mark_rx = len(ev.rx[pdev])
+            if rng.random() < 0.6:
+                for _ in range(rng.randint(1, 3)):
+                    counter[0] += 1
+                    p = bytes([0xEE, sdev, pdev]) + counter[0].to_bytes(3, 'little')
+                    rg.devices[sdev].send_l2cap_pdu(who.handle, CID, p)
+                    words.append(p)
             try:
                 await vloop.vwait(who.disconnect())
             except vloop.Hang:
@@ -473,6 +492,22 @@ async def churn(case, r: R):
                 r.bad('churn/disconnect-raised', f'{type(e).__name__}: {e}; history={hist}')
             await rg.quiesce()
             hist.append(('disconnect', key[0], key[1], key[2], 'by-initiator' if who is ca else 'by-acceptor'))
+            if words:
+                given = []
+                for rec in rg.hci_log[mark_log:]:
+                    if rec[1] != sdev or rec[2] != 'h2c':
+                        continue
+                    if rec[3][0] == 1 and rec[3][1:3] == b'\x06\x04':
+                        break
+                    if rec[3][0] == 2:
+                        given += [w for w in words if w in rec[3]]
+                got = [g[1] for g in ev.rx[pdev][mark_rx:] if g[0] == peer_conn.handle]
+                r.ev('last_words_checked', len(given))
+                r.ev('oracle_evals')
+                if [w for w in given if w not in got]:
+                    r.bad(f'churn/lost/last-words-before-disconnect/{key[2]}',
+                          f'{len(given)} PDUs were handed to controller {sdev} before its Disconnect command, the peer '
+                          f'{pdev} received {len([w for w in given if w in got])} of them; history={hist}')
             r.ev('disconnections_checked')
         await verify(hist[-1] if hist else None)
     for where, e in rg.exceptions:
@@ -677,9 +712,120 @@ async def fragadv(case, r: R):
     r.sample = {'kind': 'fragadv', 'adv_len': len(adv), 'rsp_len': len(rsp), 'adv_fragments': len(fa), 'rsp_fragments': len(fr)}
 
 
+async def advsets(case, r: R):
+    """Advertising sets through the Device API over several phases: create, change data, stop, remove,
+    create again (the lowest free handle, i.e. the removed set's, is used again). In every phase scanners
+    must see exactly the data the sets hold NOW, and nothing from a set that is stopped or removed."""
+    from bumble import hci
+    from bumble.device import AdvertisingParameters, AdvertisingEventProperties
+    from vlib import rig as vrig
+    rng = random.Random(case['seed'])
+    vrig.seed_entropy(case['seed'])
+    rg = make_rig(rng, case, 2, [True, True], delay=rng.choice([0, 1]))
+    await rg.power_on()
+    dev, scanner = rg.devices[0], rg.devices[1]
+    seen = []
+    scanner.on('advertisement', seen.append)
+    await vloop.vwait(scanner.start_scanning(active=False))
+    addrs = [hci.Address(f'C{k}:0{k}:0{k}:0{k}:0{k}:F{k}', hci.Address.RANDOM_DEVICE_ADDRESS) for k in range(3)]
+    live = {}       # slot -> [AdvertisingSet, address, data, enabled]
+    hist = []
+
+    def payload():
+        ln = rng.choice([0, 0, 1, 12, 31, 100, 229])
+        return bytes([rng.randrange(256) for _ in range(ln)])
+
+    async def verify(phase):
+        await rg.quiesce()
+        del seen[:]
+        await asyncio.sleep(1.0)
+        await rg.quiesce()
+        want = {bytes(v[1]): v for v in live.values() if v[3]}
+        got = {}
+        for a in seen:
+            r.ev('adv_events_checked')
+            r.ev('oracle_evals')
+            v = want.get(bytes(a.address))
+            if v is None:
+                stopped = [x for x in live.values() if bytes(x[1]) == bytes(a.address)]
+                r.bad('advsets/seen-after-' + ('stop' if stopped else 'remove'),
+                      f'phase {phase}: an advertisement from {a.address} arrived although no enabled set uses that '
+                      f'address; history {hist}')
+                return False
+            got[bytes(a.address)] = got.get(bytes(a.address), 0) + 1
+            if bytes(a.data_bytes) != v[2]:
+                r.bad('advsets/adv-data-wrong/' + ('stale' if any(bytes(a.data_bytes) == h[3] for h in hist if h[0] in ('create', 'data')) else 'other'),
+                      f'phase {phase}: advertisement from {a.address} carries {bytes(a.data_bytes).hex()[:40]} '
+                      f'({len(a.data_bytes)} B), its set holds {v[2].hex()[:40]} ({len(v[2])} B); history '
+                      f'{[(h[0], h[1], len(h[3])) for h in hist]}')
+                return False
+        for ad, v in want.items():
+            r.ev('oracle_evals')
+            if not got.get(ad):
+                r.bad('advsets/not-seen', f'phase {phase}: nothing seen from the enabled set at {v[1]}; history '
+                                           f'{[(h[0], h[1], len(h[3])) for h in hist]}')
+                return False
+        return True
+
+    try:
+        for phase in range(rng.choice([3, 4, 5])):
+            for _ in range(rng.choice([1, 1, 2])):
+                slot = rng.randrange(2)
+                if slot not in live:
+                    data = payload()
+                    props = AdvertisingEventProperties(is_connectable=False, is_scannable=False)
+                    ad = addrs[slot] if rng.random() < 0.7 else addrs[2]
+                    if any(bytes(v[1]) == bytes(ad) for v in live.values()):
+                        ad = addrs[slot]
+                    st = await vloop.vwait(dev.create_advertising_set(
+                        advertising_parameters=AdvertisingParameters(advertising_event_properties=props,
+                                                                     primary_advertising_interval_min=100,
+                                                                     primary_advertising_interval_max=100),
+                        random_address=ad, advertising_data=data, auto_start=True))
+                    live[slot] = [st, ad, data, True]
+                    hist.append(('create', slot, st.advertising_handle, data))
+                    r.ev('advset_creations')
+                    if any(h[0] == 'remove' and h[2] == st.advertising_handle for h in hist):
+                        r.ev('advset_handle_reused_after_remove')
+                else:
+                    st, ad, data, en = live[slot]
+                    op_ = rng.choice(['data', 'remove', 'remove', 'stop' if en else 'start'])
+                    if op_ == 'data':
+                        data = payload()
+                        await vloop.vwait(st.set_advertising_data(data))
+                        live[slot][2] = data
+                        hist.append(('data', slot, st.advertising_handle, data))
+                    elif op_ == 'stop':
+                        await vloop.vwait(st.stop())
+                        live[slot][3] = False
+                        hist.append(('stop', slot, st.advertising_handle, b''))
+                    elif op_ == 'start':
+                        await vloop.vwait(st.start())
+                        live[slot][3] = True
+                        hist.append(('start', slot, st.advertising_handle, b''))
+                    else:
+                        if en:
+                            await vloop.vwait(st.stop())
+                        await vloop.vwait(st.remove())
+                        del live[slot]
+                        hist.append(('remove', slot, st.advertising_handle, b''))
+                        r.ev('advset_removals')
+            if not await verify(phase):
+                break
+            r.ev('advset_phases_verified')
+    except vloop.Hang:
+        r.bad('advsets/hang', f'an advertising set operation never completed; history {[(h[0], h[1]) for h in hist]}')
+    except hci.HCI_Error as e:
+        r.bad('advsets/refused', f'{e}; history {[(h[0], h[1], h[2], len(h[3])) for h in hist]}')
+    r.ev('advsets_cases')
+    r.sig('advsets', tuple((h[0], h[1], len(h[3])) for h in hist))
+    r.evals()
+    r.sample = {'kind': 'advsets', 'history': [(h[0], h[1], h[2], len(h[3])) for h in hist]}
+
+
 def run_case(case, r: R):
     return {'mesh': mesh, 'steal': steal, 'scan': scan, 'churn': churn, 'parallel': parallel,
-            'fragadv': fragadv, 'ghost': ghost}[case['kind']](case, r)
+            'fragadv': fragadv, 'ghost': ghost, 'advsets': advsets}[case['kind']](case, r)
 
 
 LEVEL_TEXT = ('Relations over connection/disconnection/advertisement events and a per-device fixed channel on 2-5 '
